@@ -1062,7 +1062,14 @@ class StubsStringGenerator:
                         is_module=False,
                     )
 
-                    if shortest_qname:
+                    # The class is only declared in the stub of the re-exporting package if that package has a shorter
+                    # path than the module the class is defined in (see _has_node_shorter_reexport), otherwise the class
+                    # has to be imported from the stub of its own module
+                    class_module_id = class_id
+                    while class_module_id and class_module_id not in self.api.modules:
+                        class_module_id = class_module_id.rpartition("/")[0]
+
+                    if shortest_qname and len(shortest_qname.split(".")) < len(class_module_id.split("/")):
                         qname = f"{shortest_qname}.{name}"
 
                     in_package = True
